@@ -9,13 +9,16 @@ codec's own bookkeeping):
            depth-first order, every array consumed exactly) must give back the tensor's content;
   scan     every encoded fiber object, scanned with setupSlice/nextInSlice/handleToCoord/handleToPayload
            (/payloadToValue at the leaves) under a stub cache, must present exactly the elements the
-           decoder found for that fiber (full scan and scans from a base coordinate);
+           decoder found for that fiber (full scan and scans from a base coordinate); every scan is made twice:
+           each handle resolved as soon as nextInSlice produced it, and the handles kept until the scan has ended
+           and resolved then (a handle names an element of the fiber, not the current position of the scan);
   lookup   coordToHandle on every encoded C fiber == bisect_left over its stored coordinates (None past the end);
   size     getSize() of every encoded fiber == number of words of its layout (word-count formula below);
   concurrent  the elements a fiber presents do not depend on what other slices are open: the fibers of a rank
            co-iterated (one slice open on each, pulled in turn), the whole encoded tensor walked top-down (a child
            is scanned while the scan of its parent is still open), and the fibers of several encoded tensors
-           co-iterated two-finger style must each present exactly the elements of their layout;
+           co-iterated two-finger style must each present exactly the elements of their layout (again with the
+           handles resolved at once, and kept until every scan of the schedule has ended);
   reuse    one Codec object encoding a sequence of tensors (same depth; rank ids the same, permuted or different):
            every encoding is decoded and scanned exactly as above under that tensor's own rank ids.
 """
@@ -46,18 +49,24 @@ SPEC = {
              "under all descriptors, random: sequences of random tensors.  Every encoding (fresh or reused codec) gets "
              "the sequential per-fiber checks and then the concurrent schedules: round-robin co-iteration of all "
              "fibers of each rank, a nested top-down walk of the whole encoded tensor, and (seq) a two-finger "
-             "co-iteration of the top fibers / first leaf fibers of the encoded tensors of the sequence.  "
+             "co-iteration of the top fibers / first leaf fibers of the encoded tensors of the sequence.  Every scan "
+             "(sequential from every base, and every concurrent schedule) is run with two handle disciplines: each handle "
+             "resolved (handleToCoord / handleToPayload / payloadToValue) as soon as nextInSlice returned it, and all "
+             "handles of the scan kept and resolved after the scan (schedule) has ended, coordinates in scan order, "
+             "payloads from the last handle back to the first.  "
              "Non-trivial = the tensor holds at least one non-zero leaf and the encoding was produced; distinct = "
              "distinct (tree, shape, rank ids, descriptor, imposed shape, rank ids the codec encoded before)."),
     "shards": {"quick": 16, "thorough": 16},
     "min_counts": {"quick": {"evaluations": 4000, "oracle_evals": 60000, "encodings": 4000, "decodes_ok": 3000,
-                             "fibers_scanned": 20000, "lookup_queries": 20000, "sizes_checked": 20000,
+                             "fibers_scanned": 20000, "kept_handle_scans": 20000,
+                             "kept_handle_concurrent_scans": 10000, "lookup_queries": 20000, "sizes_checked": 20000,
                              "imposed_shape_cases": 1000, "empty_fiber_cases": 500, "allzero_cases": 50,
                              "multiword_mask_fibers": 20,
                              "concurrent_scans": 20000, "coiterations": 2000, "nested_walks": 3000,
                              "reused_codec_encodings": 500, "rank_id_changes": 300, "cross_tensor_coiterations": 300},
                    "thorough": {"evaluations": 60000, "oracle_evals": 1000000, "encodings": 60000,
-                                "fibers_scanned": 300000, "lookup_queries": 300000, "sizes_checked": 300000,
+                                "fibers_scanned": 300000, "kept_handle_scans": 300000,
+                                "kept_handle_concurrent_scans": 150000, "lookup_queries": 300000, "sizes_checked": 300000,
                                 "multiword_mask_fibers": 300,
                                 "concurrent_scans": 300000, "coiterations": 30000, "nested_walks": 50000,
                                 "reused_codec_encodings": 5000, "rank_id_changes": 3000,
@@ -80,6 +89,11 @@ SPEC = {
         "every encoded fiber owns its slice position: any interleaving of setupSlice/nextInSlice/handleTo* calls on different "
         "fiber objects (of one encoded tensor or of several) is a legal way of 'scanning each encoded fiber'; one slice per "
         "fiber object at a time",
+        "a handle returned by nextInSlice names one element of the fiber (it is what handleToCoord / handleToPayload take): "
+        "while the encoded fiber is not modified it resolves to that element whenever it is resolved - at once, after later "
+        "nextInSlice calls on the same slice, or after the slice is exhausted - and in any order; a consumer that first runs "
+        "the scan and then resolves the handles 'scans the fiber through its handle interface' as much as one that "
+        "resolves each handle before asking for the next",
         "cache hit/miss statistics and read/write counters are not part of the property; the library's prints are discarded",
         "word count of a fiber with n stored elements and shape s (reading of 'coordinates or mask words, occupancy entries, "
         "payload entries'): coordinate words U 0, C n, B ceil(s/32); occupancy entries one per slot (U: s, C/B: n) iff the "
@@ -494,10 +508,23 @@ def encode(t, desc, imposed, codec=None):
     return output, output_tensor
 
 
-def _scan(fiber, base, cap, leaf):
-    """Elements presented by the handle interface from `base`: [(coord, payload handle, value or None)]."""
+def _scan(fiber, base, cap, leaf, keep=False):
+    """Elements presented by the handle interface from `base`: [(coord, payload handle, value or None)].
+    keep=False: every handle is resolved as soon as the scan produces it.  keep=True: the scan is run to its end
+    first and the handles it produced are resolved afterwards (all coordinates in scan order, then the payloads
+    from the last handle back to the first) - a handle names its element, not the scan's current position."""
     fiber.setupSlice(base)
     got = []
+    if keep:
+        hs = []
+        while True:
+            h = fiber.nextInSlice()
+            if h is None:
+                break
+            if len(hs) >= cap:
+                return got, True
+            hs.append(h)
+        return _resolve_kept(fiber, hs, leaf), False
     while True:
         h = fiber.nextInSlice()
         if h is None:
@@ -509,6 +536,16 @@ def _scan(fiber, base, cap, leaf):
         v = fiber.payloadToValue(ph) if leaf else None
         got.append((c, ph, v))
     return got, False
+
+
+def _resolve_kept(fiber, hs, leaf):
+    cs = [fiber.handleToCoord(h) for h in hs]
+    pv = []
+    for h in reversed(hs):
+        ph = fiber.handleToPayload(h)
+        pv.append((ph, fiber.payloadToValue(ph) if leaf else None))
+    pv.reverse()
+    return [(c, ph, v) for c, (ph, v) in zip(cs, pv)]
 
 
 # ------------------------------------------------------------------------------------------
@@ -552,6 +589,7 @@ def _run_case(case, mon):
             if len(group) >= 2:
                 mon.count("cross_tensor_coiterations")
                 _coiterate(mon, group, "across-tensors", desc, merge=True)
+                _coiterate(mon, group, "across-tensors", desc, merge=True, keep=True)
 
 
 def _run_one(case, mon, codec, before):
@@ -679,8 +717,10 @@ def _run_one(case, mon, codec, before):
         if len(group) >= 2:
             mon.count("coiterations")
             _coiterate(mon, group, "siblings", desc, merge=False)
+            _coiterate(mon, group, "siblings", desc, merge=False, keep=True)
     mon.count("nested_walks")
     _nested_walk(mon, recs, ot, desc)
+    _nested_walk(mon, recs, ot, desc, keep=True)
     if mon.counters["violations_raw"] != raw0:
         return None
     return {"recs": recs, "ot": ot}
@@ -716,27 +756,29 @@ def _check_scan(mon, rec, fib, index, ot, shape, desc, leaf):
         if rec.coords:
             extra.add(rec.coords[0] + 1)
         bases += sorted(b for b in extra if 0 < b <= rec.shape)
-    for base in bases:
-        kind = "full" if base == 0 else "from-base"
+    for base, keep in [(b, k) for b in bases for k in (False, True)]:
+        # keep: the handles are resolved only after the scan has ended (see _scan)
+        kind = ("full" if base == 0 else "from-base") + (":handles-kept" if keep else "")
+        how = "scan" if not keep else "scan (handles resolved after the scan ended)"
         exp = _expected_elements(rec, base)
         try:
             with quiet():
-                got, runaway = _scan(fib, base, cap, leaf)
+                got, runaway = _scan(fib, base, cap, leaf, keep)
         except BaseException as e:      # noqa
             mon.violation(f"{what}:{kind}:raised:{type(e).__name__}",
-                          f"{desc} rank {r} fiber {index}: scanning from {base} raised {type(e).__name__}: {e}")
+                          f"{desc} rank {r} fiber {index}: {how} from {base} raised {type(e).__name__}: {e}")
             continue
-        mon.count("fibers_scanned")
+        mon.count("kept_handle_scans" if keep else "fibers_scanned")
         if runaway:
-            mon.violation(f"{what}:{kind}:runaway", f"{desc} rank {r} fiber {index}: scan from {base} exceeds {cap} elements")
+            mon.violation(f"{what}:{kind}:runaway", f"{desc} rank {r} fiber {index}: {how} from {base} exceeds {cap} elements")
             continue
         if not mon.check([g[0] for g in got] == [e[0] for e in exp], f"{what}:{kind}:coords",
-                         f"{desc} rank {r} fiber {index} (layout coords {rec.coords}, shape {rec.shape}): scan from {base} "
+                         f"{desc} rank {r} fiber {index} (layout coords {rec.coords}, shape {rec.shape}): {how} from {base} "
                          f"presents coordinates {[g[0] for g in got]}, expected {[e[0] for e in exp]}"):
             continue
         if leaf:
             mon.check([g[2] for g in got] == [e[1] for e in exp], f"{what}:{kind}:values",
-                      f"{desc} rank {r} fiber {index}: scan from {base} presents values {[g[2] for g in got]} at "
+                      f"{desc} rank {r} fiber {index}: {how} from {base} presents values {[g[2] for g in got]} at "
                       f"{[g[0] for g in got]}, the layout holds {[e[1] for e in exp]}")
             continue
         # interior: the element's payload is the child fiber
@@ -744,9 +786,9 @@ def _check_scan(mon, rec, fib, index, ot, shape, desc, leaf):
         if okc is None:
             continue                    # children implicit at fixed stride; no payload entry to compare (see assumptions)
         mon.check(okc, f"{what}:{kind}:child",
-                  f"{desc} rank {r} fiber {index}: payload handles {[g[1] for g in got]} of the scan from {base} do not "
+                  f"{desc} rank {r} fiber {index}: payload handles {[g[1] for g in got]} of the {how} from {base} do not "
                   f"lead to the fiber's children (fibers {[e[1] for e in exp]} of the next rank)")
-        if fmt == "U" and base == 0:
+        if fmt == "U" and base == 0 and not keep:
             try:
                 with quiet():
                     fh = [fib.payloadToFiberHandle(g[1]) for g in got]
@@ -782,13 +824,16 @@ def _children_ok(rec, fib, got, exp, ot, desc):
 # concurrent schedules
 # ------------------------------------------------------------------------------------------
 class _Cursor:
-    """One open slice (from base 0) on one encoded fiber, pulled element by element."""
-    __slots__ = ("rec", "fib", "ot", "leaf", "cap", "got", "error", "runaway", "done")
+    """One open slice (from base 0) on one encoded fiber, pulled element by element.  keep: the handles the scan
+    produces are kept and resolved only by finish(), after every scan of the schedule has ended (pull() then
+    resolves at most the coordinate, which a two-finger schedule needs to steer)."""
+    __slots__ = ("rec", "fib", "ot", "leaf", "cap", "got", "error", "runaway", "done", "keep", "handles")
 
-    def __init__(self, rec, fib, ot, leaf):
-        self.rec, self.fib, self.ot, self.leaf = rec, fib, ot, leaf
+    def __init__(self, rec, fib, ot, leaf, keep=False):
+        self.rec, self.fib, self.ot, self.leaf, self.keep = rec, fib, ot, leaf, keep
         self.cap = rec.shape + len(rec.coords) + 2
         self.got, self.error, self.runaway, self.done = [], None, False, False
+        self.handles = []
 
     def open(self):
         try:
@@ -797,7 +842,7 @@ class _Cursor:
             self.error, self.done = e, True
         return self
 
-    def pull(self):
+    def pull(self, peek=False):
         if self.done:
             return None
         fib = self.fib
@@ -806,9 +851,12 @@ class _Cursor:
             if h is None:
                 self.done = True
                 return None
-            if len(self.got) >= self.cap:
+            if len(self.got) + len(self.handles) >= self.cap:
                 self.runaway = self.done = True
                 return None
+            if self.keep:
+                self.handles.append(h)
+                return (fib.handleToCoord(h) if peek else None, None, None)
             c = fib.handleToCoord(h)
             ph = fib.handleToPayload(h)
             el = (c, ph, fib.payloadToValue(ph) if self.leaf else None)
@@ -818,12 +866,24 @@ class _Cursor:
         self.got.append(el)
         return el
 
+    def finish(self):
+        if self.keep and self.error is None and not self.runaway:
+            try:
+                self.got = _resolve_kept(self.fib, self.handles, self.leaf)
+            except BaseException as e:  # noqa
+                self.error = e
+        return self
+
 
 def _judge(mon, cur, mode, desc):
     rec = cur.rec
     what = f"scan:concurrent:{mode}:{rec.fmt}:{'leaf' if cur.leaf else 'interior'}"
     where = f"{desc} rank {rec.rank} {rec.fmt} fiber (layout coords {rec.coords}, shape {rec.shape})"
     mon.count("concurrent_scans")
+    if cur.keep:
+        what += ":handles-kept"
+        mode += ", handles resolved after all scans ended"
+        mon.count("kept_handle_concurrent_scans")
     if cur.error is not None:
         mon.violation(f"{what}:raised:{type(cur.error).__name__}",
                       f"{where}: scanned while other slices are open ({mode}) raised {type(cur.error).__name__}: "
@@ -851,18 +911,18 @@ def _judge(mon, cur, mode, desc):
                   f"not lead to its children (fibers {[e[1] for e in exp]} of the next rank)")
 
 
-def _coiterate(mon, group, mode, desc, merge):
+def _coiterate(mon, group, mode, desc, merge, keep=False):
     """group: [(rec, fiber object, output_tensor it belongs to, leaf)].  A slice is opened on every fiber, then
     elements are pulled in turn (round robin), or two-finger style (merge: always advance the cursors standing at
     the smallest coordinate); every cursor must present the elements of its own fiber."""
     with quiet():
-        curs = [_Cursor(*g).open() for g in group]
+        curs = [_Cursor(*g, keep=keep).open() for g in group]
         if not merge:
             live = list(curs)
             while live:
                 live = [c for c in live if c.pull() is not None]
         else:
-            heads = [c.pull() for c in curs]
+            heads = [c.pull(True) for c in curs]
             while any(h is not None for h in heads):
                 try:
                     low = min(h[0] for h in heads if h is not None)
@@ -870,12 +930,14 @@ def _coiterate(mon, group, mode, desc, merge):
                     low = None
                 for j, h in enumerate(heads):
                     if h is not None and (low is None or h[0] == low):
-                        heads[j] = curs[j].pull()
+                        heads[j] = curs[j].pull(True)
+        for c in curs:
+            c.finish()
     for c in curs:
         _judge(mon, c, mode, desc)
 
 
-def _nested_walk(mon, recs, ot, desc):
+def _nested_walk(mon, recs, ot, desc, keep=False):
     """Top-down walk of the encoded tensor: the child of every presented element (the child the layout gives it)
     is scanned, recursively, while the scan of its parent is still open."""
     depth = len(desc)
@@ -883,7 +945,7 @@ def _nested_walk(mon, recs, ot, desc):
 
     def walk(r, i):
         rec = recs[r][i]
-        cur = _Cursor(rec, ot[r + 1][i], ot, r == depth - 1).open()
+        cur = _Cursor(rec, ot[r + 1][i], ot, r == depth - 1, keep).open()
         curs.append(cur)
         k = 0
         while cur.pull() is not None:
@@ -893,6 +955,8 @@ def _nested_walk(mon, recs, ot, desc):
 
     with quiet():
         walk(0, 0)
+        for c in curs:
+            c.finish()
     for c in curs:
         _judge(mon, c, "nested", desc)
 
